@@ -98,7 +98,12 @@ def _run(sc, r, scratch, i):
     script, dsum, dargv = scripts[0]
     witness.update({"dry_argv": [fsd(a) for a in dargv], "script": script.decode("utf-8", "replace")[:4000]})
     canon = [re.sub(rb"\.[A-Za-z0-9]{24}", b".TEMP", s[0]) for s in scripts]
-    if len(set(canon)) != 1:
+    canon_cmp = canon
+    if sc.get("mounted") and op in ("link", "dedupe"):
+        # a group that spans two file systems is split by device, and the order of the parts within the group is not
+        # promised (the property fixes the order of the groups only, which oracle (2) checks): compare as multisets of lines
+        canon_cmp = [b"\n".join(sorted(c.split(b"\n"))) for c in canon]
+    if len(set(canon_cmp)) != 1:
         witness["scripts"] = [c.decode("utf-8", "replace")[:1500] for c in canon]
         return [violation("C11:script-depends-on-schedule", "the dry-run script differs between thread-pool sizes", witness)]
     if r.random() < 0.3:
@@ -109,7 +114,10 @@ def _run(sc, r, scratch, i):
         dres, dargv2 = dd.run_dedupe(op, dict(cfg, dry_run=True, output=outp), report, troot, home, target=target, extra_env=amb, threads=1)
         with open(outp, "rb") as f:
             filed = f.read()
-        if dres.rc != 0 or re.sub(rb"\.[A-Za-z0-9]{24}", b".TEMP", filed) != canon[0]:
+        filed_c = re.sub(rb"\.[A-Za-z0-9]{24}", b".TEMP", filed)
+        if canon_cmp is not canon:
+            filed_c = b"\n".join(sorted(filed_c.split(b"\n")))
+        if dres.rc != 0 or filed_c != canon_cmp[0]:
             witness.update({"argv": [fsd(a) for a in dargv2], "file": filed.decode("utf-8", "replace")[:3000], "rc": dres.rc,
                             "stderr": dres.err_text()[-500:]})
             return [violation("C11:%s:script-file-differs-from-stdout" % op,
